@@ -23,7 +23,8 @@ for i in sorted(rows):
     if len(s) > 150: s = s[:147] + '…'
     ctl = m.get('harmless') or m.get('harmless_since')
     own = '; '.join('%s: %s' % (x[0], 'quiet, as it must be' if ctl and x[1] == 'missed' else x[1]) for x in rows[i])
-    if m.get('harmless') or m.get('harmless_since'): own += ' (harmless since a fix: negative control)'
+    if m.get('harmless_since'): own += ' (harmless since a fix: negative control)'
+    elif m.get('harmless'): own += ' (harmless for this property: negative control)'
     oth = '; '.join('%s: %s' % x for x in extra.get(i, []))
     out.append('| %s | %s | %s | %s |' % (i, s, own, oth))
 table = '\n'.join(out)
